@@ -3,7 +3,7 @@
 # worktree of /repo (under /tmp, removed afterwards), the property's check is run against that tree (VERIF_REPO), and the verdict is
 # listed.  Expected: exit 1 for every seed, except the six whose meta.json says NOT REFUTED (C05-que-insert-backward-stale-num,
 # C18-length-ascii-pair-overrun, C03-avl-post-tail-mirror-exit, C09-triU2-merged-loops-overrun, C08-plu-inv-unit-vector-transposed,
-# C09-mulTT-zero-skip-wrong-stride (quick tier): exit 2, an added / split loop outside the rule templates - no verdict, documented in DESIGN 8.3).  Nothing is written to /repo or to /verif/evidence.
+# C09-mulTT-zero-skip-wrong-stride: exit 2, an added / split loop outside the rule templates - no verdict, documented in DESIGN 8.3).  Nothing is written to /repo or to /verif/evidence.
 TIER=${1:-quick}
 cd /verif
 ls seeded | xargs -P 6 -I{} sh -c '
